@@ -273,6 +273,10 @@ func calcCueItvls(segStart, segDur, utcStart, cueDur int) []cueItvl {
 		if utcEndMS < ci.endMS {
 			ci.endMS = utcEndMS
 		}
+		if ci.endMS < ci.startMS {
+			// The cue of this second has already ended at segment start
+			ci.endMS = ci.startMS
+		}
 		ci.startMS += diff
 		ci.endMS += diff
 		itvls = append(itvls, ci)
